@@ -1064,6 +1064,8 @@ def oracle_C19(ctx, i):
         if r == "ok" and pt not in PT_KIND and I.get("via_packet_same") == "false": out.append("conversion through the generic packet differs from the direct parse")
         return out
     if op != "build": return out
+    if meta["cfg"]["k"] == "compound":
+        return oracle_C14(ctx, i)        # "can be embedded in compounds"
     cfg = leaf(meta["cfg"])
     if cfg["k"] not in ("unknown", "custom") or meta["cfg"]["k"] == "pb" and False: return out
     n = size_of(I)
@@ -1102,7 +1104,10 @@ def oracle_C19(ctx, i):
 def oracle_C20(ctx, i):
     I, meta = ctx.I[i], ctx.metas[i]
     g = meta.get("group")
-    if g is None or g == i: return []
+    if g is not None and g == i:
+        # the canonical call sequence itself: bytes and size are those of the final configuration
+        return oracle_C07(ctx, i) + oracle_C16(ctx, i)
+    if g is None: return []
     J = ctx.I[g]
     out = []
     cfg = meta["cfg"]
